@@ -491,7 +491,8 @@ def level_eval_config():
         a, s = z3.Ints('qa qs')
         st.assume(SBool(z3.ForAll([a, s], ACC(ex.g['a'], a, s) == ex.g['abuf0'][a][s])))
         return st
-    contract = {'post': post, 'loops': {0: {'inv': outer_inv, 'assume': outer_assume, 'modifies': ['abuf', 'calls'], 'kinds': {'op': 'keep', 'a_loc': 'int', 'a_wr': 'int', 'a_wf': 'int', 'nrise': 'int', 'nfall': 'int'}},
+    contract = {'post': post, 'loop_match': {0: ('range(op_start, op_stop)', 0), 1: ('range(sim_start, sim_stop)', None)},
+                'loops': {0: {'inv': outer_inv, 'assume': outer_assume, 'modifies': ['abuf', 'calls'], 'kinds': {'op': 'keep', 'a_loc': 'int', 'a_wr': 'int', 'a_wf': 'int', 'nrise': 'int', 'nfall': 'int'}},
                                         1: {'inv': inner_inv, 'modifies': ['abuf', 'calls'], 'kinds': {'a_loc': 'int', 'a_wr': 'int', 'a_wf': 'int', 'nrise': 'int', 'nfall': 'int'}}}}
     return Config('any op range x lane range', contract, setup2, None)
 
